@@ -1,6 +1,7 @@
 package main
 
 import (
+	"go/parser"
 	"fmt"
 	"go/ast"
 	"go/token"
@@ -28,7 +29,8 @@ type Engine struct {
 	funcs      map[string]*ssa.Function
 	loadSecs   float64
 	implCache  map[string][]devImpl
-	inlineDeps map[string]bool // dependency packages whose small functions are followed (built on demand)
+	inlineDeps map[string]bool
+	secrets    *secretInfo // dependency packages whose small functions are followed (built on demand)
 	built      map[*ssa.Package]bool
 	nonNilGlobals map[*ssa.Global]bool
 	applyModel    int // 0 unknown, 1 messages applied only when accepted, 2 applied in every state
@@ -71,8 +73,31 @@ func (e *Engine) pkgByName(name string) *types.Package {
 			return c
 		}
 	}
-	sort.Slice(cands, func(i, j int) bool { return len(cands[i].Path()) < len(cands[j].Path()) })
+	// deterministic: complete packages first, then the shortest, then the smallest path
+	sort.Slice(cands, func(i, j int) bool {
+		ci, cj := len(cands[i].Scope().Names()) > 0, len(cands[j].Scope().Names()) > 0
+		if ci != cj {
+			return ci
+		}
+		if len(cands[i].Path()) != len(cands[j].Path()) {
+			return len(cands[i].Path()) < len(cands[j].Path())
+		}
+		return cands[i].Path() < cands[j].Path()
+	})
 	return cands[0]
+}
+
+// pkgByNameFrom resolves a package name as the package `from` would: its direct
+// imports first, then any loaded package of that name.
+func (e *Engine) pkgByNameFrom(from *types.Package, name string) *types.Package {
+	if from != nil {
+		for _, imp := range from.Imports() {
+			if imp.Name() == name {
+				return imp
+			}
+		}
+	}
+	return e.pkgByName(name)
 }
 
 func loadEngine(repo string, patterns []string) (*Engine, error) {
@@ -167,11 +192,21 @@ func loadEngine(repo string, patterns []string) (*Engine, error) {
 	// assumed contract of a type of another package (a dependency); it is keyed by
 	// that package's path, its clauses are evaluated in the declaring package's scope
 	for key, ct := range e.cs.Funcs {
+		if ct.ExternPkg != "" {
+			p := e.pkgByNameFrom(e.typesPkg(ct.PkgPath), ct.ExternPkg)
+			if p == nil {
+				return nil, fmt.Errorf("%s:%d: extern contract %s: unknown package %q", ct.File, ct.Line, ct.Name, ct.ExternPkg)
+			}
+			delete(e.cs.Funcs, key)
+			ct.TypePkg = p.Path()
+			e.cs.Funcs[p.Path()+"::"+ct.Name] = ct
+			continue
+		}
 		if !ct.IsIface || strings.Count(ct.Name, ".") != 2 {
 			continue
 		}
 		i := strings.Index(ct.Name, ".")
-		p := e.pkgByName(ct.Name[:i])
+		p := e.pkgByNameFrom(e.typesPkg(ct.PkgPath), ct.Name[:i])
 		if p == nil {
 			return nil, fmt.Errorf("%s:%d: extern contract %s: unknown package %q", ct.File, ct.Line, ct.Name, ct.Name[:i])
 		}
@@ -462,8 +497,60 @@ func (e *Engine) ghostTypeIn(pkgPath, s string) types.Type {
 		if tv, err := types.Eval(e.fset, p, token.NoPos, s); err == nil && tv.Type != nil {
 			return tv.Type
 		}
+		// types of other packages (`*wire.MsgTx`): resolve the qualifier by package name
+		if ex, err := parser.ParseExpr(s); err == nil {
+			if t := e.typeOfExpr(ex, p); t != nil {
+				return t
+			}
+		}
 	}
-	panic("unsupported ghost type " + s)
+	panic(fmt.Sprintf("unsupported ghost type %s (package %s loaded=%v)", s, pkgPath, e.typesPkg(pkgPath) != nil))
+}
+
+func (e *Engine) typeOfExpr(ex ast.Expr, scope *types.Package) types.Type {
+	switch n := ex.(type) {
+	case *ast.StarExpr:
+		if t := e.typeOfExpr(n.X, scope); t != nil {
+			return types.NewPointer(t)
+		}
+	case *ast.ArrayType:
+		if n.Len == nil {
+			if t := e.typeOfExpr(n.Elt, scope); t != nil {
+				return types.NewSlice(t)
+			}
+		}
+	case *ast.MapType:
+		k, v := e.typeOfExpr(n.Key, scope), e.typeOfExpr(n.Value, scope)
+		if k != nil && v != nil {
+			return types.NewMap(k, v)
+		}
+	case *ast.StructType:
+		if n.Fields == nil || len(n.Fields.List) == 0 {
+			return types.NewStruct(nil, nil)
+		}
+	case *ast.Ident:
+		if o := scope.Scope().Lookup(n.Name); o != nil {
+			if tn, ok := o.(*types.TypeName); ok {
+				return tn.Type()
+			}
+		}
+		if o := types.Universe.Lookup(n.Name); o != nil {
+			if tn, ok := o.(*types.TypeName); ok {
+				return tn.Type()
+			}
+		}
+	case *ast.SelectorExpr:
+		if id, ok := n.X.(*ast.Ident); ok {
+			if p := e.pkgByNameFrom(scope, id.Name); p != nil {
+				if o := p.Scope().Lookup(n.Sel.Name); o != nil {
+					if tn, ok := o.(*types.TypeName); ok {
+						return tn.Type()
+					}
+				}
+			}
+		}
+	}
+	return nil
 }
 
 func ghostType(s string) types.Type {
